@@ -74,6 +74,8 @@ class Prop:
                 bits = gen.payload_bits(rng, c, overrides=ov)
             else:
                 bits = gen.payload_bits(rng, c, length=rng.choice([None, 300]) if c in ('MessageType8', 'MessageType14') else None)
+            if c == 'MessageType1' and rng.random() < 0.3:
+                bits = '000000' + bits[6:]         # message id 0 is decoded like a type 1 message, with msg_type 0
             payload, _ = gen.armor(bits)
             if len(payload) > 200:
                 continue
@@ -84,7 +86,8 @@ class Prop:
         pos = [(m.lat, m.lon) for m in decoded if getattr(m, 'lat', None) is not None and getattr(m, 'lon', None) is not None]
         out = ['A:always', 'A:has:speed', 'A:lt:speed:%d' % rng.choice([5000000, 20000000, 60000000]),
                'A:lt:mmsi:%d' % (500000000 * 1000000), 'N:speed', 'N:lat,lon', 'N:shipname', 'N:speed,course,heading',
-               'T:1,2,3', 'T:5,8,14,24', 'T:%s' % ','.join(str(t) for t in rng.sample(range(1, 28), 6)), 'T:-']
+               'T:1,2,3', 'T:5,8,14,24', 'T:%s' % ','.join(str(t) for t in rng.sample(range(1, 28), 6)), 'T:-',
+               'T:0', 'T:0,2,3,5,18', 'T:%s' % ','.join(str(t) for t in rng.sample(range(0, 64), 12))]
         for _ in range(3):
             if pos:
                 la, lo = rng.choice(pos)
